@@ -1201,4 +1201,41 @@ theorem mul_mono_left {a b d : Rat} (hd : 0 ≤ d) (h : a ≤ b) :
     le (roundNE (a * d)) (roundNE (b * d)) = true :=
   le_roundNE_of_le (Rat.mul_le_mul_of_nonneg_right h hd)
 
+/-! #### bit patterns decode to well-formed values -/
+
+theorem WF_fin_mul_pow2 (sign : Bool) {k : Nat} {K : Int} (hk0 : 0 < k) (hk : k < 2 ^ 53)
+    (hK : -1074 ≤ K) (hK' : K ≤ 971) :
+    WF (.fin (if sign then -((k : Rat) * pow2 K) else (k : Rat) * pow2 K)) := by
+  have hP := pow2_pos K
+  have hkr : (0 : Rat) < (k : Rat) := Rat.natCast_pos.2 hk0
+  have hpos : 0 < (k : Rat) * pow2 K := Rat.mul_pos hkr hP
+  have hlt : (k : Rat) * pow2 K < pow2 1024 := by
+    have h1 : (k : Rat) * pow2 K < pow2 53 * pow2 K := by
+      rw [pow2_53]; exact Rat.mul_lt_mul_of_pos_right (Rat.natCast_lt_natCast.2 hk) hP
+    rw [← pow2_add] at h1
+    have := pow2_mono (show 53 + K ≤ 1024 by omega)
+    grind
+  have hw : WF (.fin ((k : Rat) * pow2 K)) :=
+    WF_fin_iff.2 ⟨rep_natCast_mul hk hK, by rw [Rat.abs_of_nonneg (Rat.le_of_lt hpos)]; exact hlt,
+      by grind⟩
+  cases sign
+  · exact hw
+  · exact WF_neg (x := .fin _) hw
+
+theorem WF_ofBits (b : Nat) : WF (ofBits b) := by
+  unfold ofBits
+  simp only []
+  split
+  · split <;> trivial
+  · split
+    · split
+      · trivial
+      · rename_i h
+        exact WF_fin_mul_pow2 _ (by omega) (by have := Nat.mod_lt b (show 0 < 2 ^ 52 by decide); omega)
+          (by decide) (by decide)
+    · rename_i h1 h2
+      have hf := Nat.mod_lt b (show 0 < 2 ^ 52 by decide)
+      have he := Nat.mod_lt (b / 2 ^ 52) (show 0 < 2 ^ 11 by decide)
+      exact WF_fin_mul_pow2 _ (by omega) (by omega) (by omega) (by omega)
+
 end ScionTime.F64
